@@ -256,7 +256,7 @@ def directed():
 
 
 def gen(rng, tier):
-    n_rand = {"quick": 500, "thorough": 12000, "search": 4000}[tier]
+    n_rand = {"quick": 500, "thorough": 50000, "search": 4000}[tier]
     for tag, ops in directed():
         yield Case("s_connectivity", ops, tag)
     for i in range(n_rand):
